@@ -18,6 +18,7 @@ structure ChanType where
   zeroFee : Bool := false
   lease : Bool := false
   taproot : Bool := false
+  taprootFinal : Bool := false
 deriving DecidableEq, Repr, Inhabited
 
 /-- What is being spent. -/
@@ -162,6 +163,39 @@ def Close.ctx (c : Close) (s : Spend) (expiry : Nat) : Ctx :=
     expiry `expiry` and payment-hash item `payHash`, given `preimage`. -/
 def Close.valid (c : Close) (s : Spend) (expiry : Nat) (payHash preimage : Item) : Bool :=
   run (c.ctx s expiry) (c.script s expiry payHash) (c.witness s preimage)
+
+/-! ### simple-taproot channels: tapscript leaves (script path); the funding
+    output (MuSig2) and the anchors are key-path spends and stay outside the model -/
+
+def Close.tapScript (c : Close) (s : Spend) (cltv : Nat) (payHash : Item) : Option (List Op) :=
+  let f := c.ct.taprootFinal
+  match s with
+  | .toLocal | .secondLevelOut => some (tapDelayLeaf f (c.toLocalKey true) c.csv)
+  | .toRemote => some (tapDelayLeaf f (c.toRemoteKey false) 1)
+  | .htlcTimeoutTx => some (tapSenderTimeoutLeaf c.localHtlcKey c.remoteHtlcKey)
+  | .htlcSuccessTx => some (tapReceiverSuccessLeaf c.remoteHtlcKey c.localHtlcKey payHash)
+  | .htlcTimeout => some (tapReceiverTimeoutLeaf f c.localHtlcKey cltv)
+  | .htlcClaim => some (tapSenderSuccessLeaf f c.localHtlcKey payHash)
+  | .funding | .anchor => none
+
+/-- witness below leaf script and control block (Schnorr, SIGHASH_DEFAULT for
+    our signature, SINGLE|ANYONECANPAY for the peer's second-level signature) -/
+def Close.tapWitness (c : Close) (s : Spend) (preimage : Item) : List Item :=
+  let mine := Item.sig (c.signer s) 0 true
+  let peerHtlc := Item.sig c.remoteHtlcKey sigHashSingleAnyoneCanPay true
+  match s with
+  | .htlcTimeoutTx => [peerHtlc, mine]
+  | .htlcSuccessTx => [peerHtlc, mine, preimage]
+  | .htlcClaim => [mine, preimage]
+  | _ => [mine]
+
+def Close.tapCtx (c : Close) (s : Spend) (expiry : Nat) : Ctx :=
+  { version := 2, sequence := c.sequence s, lockTime := c.lockTime s expiry, tapscript := true }
+
+def Close.tapValid (c : Close) (s : Spend) (expiry : Nat) (payHash preimage : Item) : Bool :=
+  match c.tapScript s expiry payHash with
+  | some sc => run (c.tapCtx s expiry) sc (c.tapWitness s preimage)
+  | none => true
 
 /-! ### value claimable (dust rule of `HtlcIsDust` / `extractHtlcResolutions`) -/
 
